@@ -24,6 +24,9 @@ var fineGrained = map[string][]string{
 		"internal/listobjects/pipeline/internal/worker/basic.go",
 		"internal/listobjects/pipeline/internal/worker/medium.go",
 	},
+	"hiter": {
+		"pkg/storage/storagewrappers/sharediterator/shared_iterator_datastore.go",
+	},
 	"hpipe": {
 		"internal/containers/mpmc/queue.go",
 		"internal/containers/mpsc/accumulator.go",
@@ -137,7 +140,7 @@ func instrument(dir, harness string) (map[string]string, error) {
 		}
 		out[src] = dst
 	}
-	if total < 20 {
+	if total < 5 {
 		return nil, fmt.Errorf("only %d instrumentation points found in %d files (sources changed shape?)", total, len(fineGrained[harness]))
 	}
 	return out, nil
